@@ -1555,3 +1555,66 @@ def rule_sound_off_not_before_release(ctx):
                   msg=f"`{norm(s)[:80]}` lowers the sounding end to the next strike of the pitch whatever its time: a strike *before* the note's own release "
                       f"(overlapping notes of one pitch) gives sound_off < note_off and PerformedPart raises")
     ctx.floor(rule, "min() updates of the sounding-end array", n, 1)
+
+
+def _linear(e, atoms):
+    """coefficients of a +/- combination of atomic terms (normalised text) and an integer constant; None if not linear"""
+    if isinstance(e, ast.BinOp) and isinstance(e.op, (ast.Add, ast.Sub)):
+        a, b = _linear(e.left, atoms), _linear(e.right, atoms)
+        if a is None or b is None:
+            return None
+        sgn = 1 if isinstance(e.op, ast.Add) else -1
+        out = dict(a)
+        for k, v in b.items():
+            out[k] = out.get(k, 0) + sgn * v
+        return out
+    if isinstance(e, ast.UnaryOp) and isinstance(e.op, ast.USub):
+        a = _linear(e.operand, atoms)
+        return None if a is None else {k: -v for k, v in a.items()}
+    if isinstance(e, ast.Constant) and isinstance(e.value, int):
+        return {"1": e.value}
+    return {norm(e): 1}
+
+
+def rule_transpose_direction_mirror(ctx):
+    rule = "DIR-mirror"
+    ctx.rule(rule, "_transpose_note_inplace: the new alteration is linear in (old alteration, interval semitones, semitones between the "
+                   "natural steps); the old alteration enters with +1 in both directions and the other two terms change sign between "
+                   "'up' and 'down'; the natural-step distance is a true modulo of natural pitch classes (no alteration folded in)")
+    f = ctx.prog.func("partitura.utils.music:_transpose_note_inplace", rule)
+    defs = local_defs(f)
+    branches = [i for i in own_nodes(f.node) if isinstance(i, ast.If) and any(isinstance(c, ast.Constant) and c.value in ("up", "down") for c in ast.walk(i.test))
+                and any(isinstance(t, ast.Attribute) and t.attr == "alter" and isinstance(t.ctx, ast.Store) for s in i.body + i.orelse for t in ast.walk(s))]
+    ok = len(branches) == 1 and bool(branches[0].orelse)
+    forms = []
+    if ok:
+        for blk in (branches[0].body, branches[0].orelse):
+            st = [s for s in blk if isinstance(s, ast.Assign) and any(isinstance(t, ast.Attribute) and t.attr == "alter" for t in s.targets)]
+            lin = _linear(st[0].value, None) if st else None
+            forms.append(lin)
+        ok = all(x is not None for x in forms)
+    why = "the alteration is not assigned separately for the two directions (same sign for 'up' and 'down')"
+    if ok:
+        a, b = forms
+        keys = set(a) | set(b)
+        same = [k for k in keys if a.get(k, 0) == b.get(k, 0) and a.get(k, 0) != 0]
+        opp = [k for k in keys if a.get(k, 0) == -b.get(k, 0) and a.get(k, 0) != 0]
+        ok = len(same) == 1 and len(opp) == 2 and len(keys) == 3 and all(abs(v) == 1 for v in list(a.values()) + list(b.values()))
+        why = f"up: {a}, down: {b} — expected one common term (the old alteration) and two terms of opposite sign"
+        if ok:
+            # the distance term: (x - y) % 12 over natural pitch classes, mirrored
+            dist = [k for k in opp if any(isinstance(v, ast.BinOp) and isinstance(v.op, ast.Mod) for v in defs.get(k, []))]
+            ok = len(dist) == 1 and len(defs[dist[0]]) == 2
+            why = "the natural-step distance is not a modulo of a difference in both directions"
+            if ok:
+                d1, d2 = (v.left for v in defs[dist[0]])
+                ok = isinstance(d1, ast.BinOp) and isinstance(d2, ast.BinOp) and isinstance(d1.op, ast.Sub) and isinstance(d2.op, ast.Sub) and \
+                    norm(d1.left) == norm(d2.right) and norm(d1.right) == norm(d2.left)
+                why = "the two distances are not mirror images of each other"
+                if ok:
+                    for nm in (norm(d1.left), norm(d1.right)):
+                        for v in defs.get(nm, []):
+                            if any(isinstance(x, ast.Name) and x.id == same[0] for x in ast.walk(v)) or any(isinstance(x, ast.Attribute) and x.attr == "alter" for x in ast.walk(v)):
+                                ok, why = False, f"`{nm}` folds the old alteration into the pitch class that is then reduced modulo 12 (E## + dd2 wraps an octave)"
+    ctx.check(ok, rule, "alteration arithmetic mirrored between directions", func=f, construct="direction-not-mirrored",
+              msg=f"_transpose_note_inplace: {why}: transposing down (or from a note whose alteration crosses the next natural step) gives the wrong alteration")
